@@ -6,6 +6,7 @@ import (
 	"sort"
 	"strings"
 	"sync"
+	"sync/atomic"
 
 	"github.com/vechain/thor/v2/thor"
 	"github.com/vechain/thor/v2/txpool"
@@ -161,6 +162,8 @@ type tracer struct {
 	// isPacker tells whether the calling goroutine runs the node's packer loop body: its pool.Remove calls
 	// (cleanupTransactions) are operations nobody announced, the tracer logs their begin/end itself
 	isPacker func() bool
+	// hold, if set, is called after every event was logged and may block the calling goroutine there
+	hold atomic.Pointer[func(ev txpool.VerifEvent)]
 	stalePrio int          // evaluations after which a priced object's priority was not the one for the wash's head
 	washHead  thor.Bytes32 // head of the wash in flight
 	washChg   bool         // that wash runs because the head changed
@@ -388,6 +391,9 @@ func (t *tracer) handle(ev txpool.VerifEvent) {
 		if (ev.Kind == "remove" || ev.Kind == "remove.miss") && t.isPacker != nil && t.isPacker() {
 			e.evs.emit(trace.Ev{"e": "RemoveEnd", "g": 95, "res": ev.Kind == "remove"})
 		}
+	}
+	if h := t.hold.Load(); h != nil {
+		(*h)(ev) // may block the caller right here - at a Locked event that keeps txObjectMap.lock held
 	}
 	if !ev.Locked && gateKinds[ev.Kind] && t.gate != nil {
 		t.gate(ev.Kind)
